@@ -17,6 +17,9 @@ class ConstControlT {
 	template <typename, typename>
 	friend class R_;
 
+	template <typename, typename, Prong, typename...>
+	friend struct OS_;
+
 	template <typename, typename>
 	friend struct QueryWrapperT;
 
